@@ -76,7 +76,11 @@ func borrowDense() *Dense {
 
 // ReturnTensor returns a Tensor to their respective pools. USE WITH CAUTION
 func ReturnTensor(t Tensor) {
-	if !usePool {
+	// usePool is written by UsePool/DontUsePool under habbo: read it under the same lock
+	habbo.Lock()
+	use := usePool
+	habbo.Unlock()
+	if !use {
 		return
 	}
 	switch tt := t.(type) {
